@@ -221,7 +221,27 @@ impl Ctx {
     fn run_c12<T: Autocomplete + Help>(&mut self, d: &Decl, parse: ParseFn) {
         let mut rng = Rng::derive(self.seed ^ 0xC12, self.batch as u64, d.id as u64);
         let cases = gen_help_lines(d, &mut rng, if self.thorough { 4 } else { 2 });
-        for hc in cases {
+        for mut hc in cases {
+            if let About::AsParsed(plain) = &hc.about {
+                let plain = plain.clone();
+                let parsed = guarded(|| parse_through_cli::<T>(&plain, parse));
+                let q = match parsed {
+                    Ok(Some(Ok(dbg))) => path_from_debug(d, &dbg),
+                    _ => None,
+                };
+                match q {
+                    Some(q) => {
+                        if q.len() >= 2 {
+                            self.rep.count("c12.as_parsed.nested");
+                        }
+                        hc.about = if resolve_path(d, &q).is_some() { About::Path(q) } else { About::Unknown };
+                    }
+                    None => {
+                        self.rep.count("c12.as_parsed.parser_gives_no_path");
+                        continue;
+                    }
+                }
+            }
             self.rep.count(&format!("c12.lines.{}", hc.kind));
             self.rep.distinct.insert(hash_u64s(&[12, d.id as u64 + 1000 * self.batch as u64, crate::prng::hash_bytes(0, hc.line.as_bytes())]));
             self.rep.sample(hc.line.len(), || J::obj().set("declaration", J::Int(d.id as i64)).set("line", J::s(&hc.line)).set("asks_about", J::s(format!("{:?}", hc.about))));
@@ -804,6 +824,9 @@ pub enum About {
     Unknown,
     /// looks similar but is not a help request: must reach the command processor
     NotHelp,
+    /// the help option was added to this line; whatever command path the real parser sees in the line without it
+    /// is the command the help must be about (resolved at run time into Path / Unknown)
+    AsParsed(String),
 }
 
 #[derive(Clone, Debug)]
@@ -835,6 +858,139 @@ fn path_tokens(d: &Decl, path: &[String], rng: &mut Rng, with_parent_opts: bool)
         }
     }
     toks
+}
+
+/// tokens of an invocation of the command at `path` that is complete at every level (required options of the parents,
+/// a valid argument list for the last command when it has no sub-command), where a parent's value-taking option may be
+/// left dangling in front of a flag / another option or share a short cluster with a flag. Returns the tokens and the index
+/// right after the last path name.
+fn agreement_tokens(d: &Decl, path: &[String], rng: &mut Rng) -> Option<(Vec<String>, usize)> {
+    let mut toks: Vec<String> = vec![];
+    let mut leaf_at = 0;
+    for k in 0..path.len() {
+        let v = resolve_path(d, &path[..=k])?;
+        toks.push(path[k].clone());
+        if k + 1 == path.len() {
+            leaf_at = toks.len();
+            if v.sub.is_none() {
+                let mut own = gen_valid_tokens(d, v, rng, false);
+                own.remove(0);
+                toks.extend(own);
+            }
+            break;
+        }
+        // (tokens, droppable value, short of a value option, short of a flag)
+        let mut groups: Vec<(Vec<String>, bool, Option<char>, Option<char>)> = vec![];
+        for f in &v.fields {
+            if let FieldKind::Named { long, short, .. } = &f.kind {
+                let required = !f.optional && f.default.is_none() && !f.is_flag();
+                if !(required || rng.chance(70)) {
+                    continue;
+                }
+                let use_short = short.is_some() && (long.is_none() || rng.chance(50));
+                let spelled = if use_short { format!("-{}", short.unwrap()) } else { format!("--{}", long.clone().unwrap()) };
+                if f.is_flag() {
+                    groups.push((vec![spelled], false, None, if use_short { *short } else { None }));
+                } else {
+                    groups.push((vec![spelled, gen_value(rng, f.ty, false)], !required, if use_short { *short } else { None }, None));
+                }
+            }
+        }
+        for i in (1..groups.len()).rev() {
+            let j = rng.below(i + 1);
+            groups.swap(i, j);
+        }
+        let cand: Vec<usize> = (0..groups.len()).filter(|&i| groups[i].1).collect();
+        if !cand.is_empty() && rng.chance(65) {
+            let i = *rng.pick(&cand);
+            groups[i].0.truncate(1);
+            // most of the time something option-like follows the dangling option
+            if i + 1 == groups.len() && groups.len() > 1 && rng.chance(80) {
+                let g = groups.remove(i);
+                let at = rng.below(groups.len());
+                groups.insert(at, g);
+            }
+            // value-taking short option and a flag in one cluster
+            let i = groups.iter().position(|g| g.0.len() == 1 && g.1).unwrap();
+            if let (Some(n), true) = (groups[i].2, rng.chance(50)) {
+                if let Some(j) = groups.iter().position(|g| g.3.is_some()) {
+                    let fl = groups[j].3.unwrap();
+                    groups[i].0 = vec![if rng.chance(70) { format!("-{}{}", n, fl) } else { format!("-{}{}", fl, n) }];
+                    groups.remove(j);
+                }
+            }
+        }
+        for g in groups {
+            toks.extend(g.0);
+        }
+    }
+    Some((toks, leaf_at))
+}
+
+/// the command path named by a `#[derive(Debug)]` rendering of a parsed command of declaration `d`
+pub fn path_from_debug(d: &Decl, dbg: &str) -> Option<Vec<String>> {
+    // drop string and char literals, then keep the capitalised identifiers: those are variant names
+    let mut plain = String::new();
+    let mut it = dbg.chars();
+    while let Some(c) = it.next() {
+        if c == '"' || c == '\'' {
+            let q = c;
+            while let Some(e) = it.next() {
+                if e == '\\' {
+                    it.next();
+                } else if e == q {
+                    break;
+                }
+            }
+            plain.push(' ');
+        } else {
+            plain.push(c);
+        }
+    }
+    let idents: Vec<&str> = plain
+        .split(|c: char| !(c.is_ascii_alphanumeric() || c == '_'))
+        .filter(|w| w.chars().next().map(|c| c.is_ascii_uppercase()).unwrap_or(false) && !["Some", "None", "NaN"].contains(w))
+        .collect();
+    let mut k = 0;
+    let mut ei = match &d.top {
+        Top::Enum(i) => *i,
+        Top::Group(g) => {
+            let m = g.members.iter().find(|m| Some(&m.ident.as_str()) == idents.first())?;
+            k = 1;
+            match m.member {
+                Member::Enum(i) => i,
+                Member::Raw => return None,
+            }
+        }
+    };
+    let mut path = vec![];
+    while k < idents.len() {
+        let v = d.enums[ei].variants.iter().find(|v| v.ident == idents[k])?;
+        path.push(v.name.clone());
+        k += 1;
+        match &v.sub {
+            Some(s) => ei = s.enum_idx,
+            None => break,
+        }
+    }
+    if path.is_empty() || k != idents.len() {
+        return None;
+    }
+    Some(path)
+}
+
+/// what the real derived parser makes of `line` (None: the command processor was not called)
+fn parse_through_cli<T: Autocomplete + Help>(line: &str, parse: ParseFn) -> Option<Result<String, OwnedParseError>> {
+    let cap = line.len() + 8;
+    let mut cmd = vec![0u8; cap].into_boxed_slice();
+    let mut hist = vec![0u8; 0].into_boxed_slice();
+    let sink = MonSink::new();
+    let mut rig: Rig<'_, T> = Rig::build(&mut cmd, &mut hist, 0, false, sink.clone(), RecProc::new(vec![], Some(parse))).expect("build");
+    for &b in line.as_bytes() {
+        rig.byte(b).expect("sink never fails");
+    }
+    rig.byte(b'\n').expect("sink never fails");
+    rig.proc.log.first().and_then(|r| r.parsed.clone())
 }
 
 pub fn gen_help_lines(d: &Decl, rng: &mut Rng, reps: usize) -> Vec<HelpCase> {
@@ -880,6 +1036,23 @@ pub fn gen_help_lines(d: &Decl, rng: &mut Rng, reps: usize) -> Vec<HelpCase> {
             let at = rng.range(base, t.len());
             t.insert(at, if rng.chance(50) { "-h".into() } else { "--help".into() });
             out.push(HelpCase { line: render_tokens(&t, rng), kind: "help-option", about: About::Path(p.clone()) });
+        }
+    }
+    // help vs parser agreement: a complete invocation (parent options of every level, some of them left without their
+    // value, some clustered with a flag) plus a help option somewhere after the last path name
+    for p in &paths {
+        for _ in 0..reps {
+            if let Some((t, leaf_at)) = agreement_tokens(d, p, rng) {
+                let plain = render_tokens(&t, rng);
+                let mut th = t.clone();
+                let limit = th.iter().position(|x| x == "--").unwrap_or(th.len());
+                if limit < leaf_at {
+                    continue;
+                }
+                let at = rng.range(leaf_at, limit);
+                th.insert(at, if rng.chance(50) { "-h".into() } else { "--help".into() });
+                out.push(HelpCase { line: render_tokens(&th, rng), kind: "help-as-parsed", about: About::AsParsed(plain) });
+            }
         }
     }
     // near misses: the help option after `--`, other spellings, `help` as an argument value
@@ -936,7 +1109,7 @@ pub fn judge_help(d: &Decl, hc: &HelpCase, rows: &[String]) -> Vec<(&'static str
     let mut fails: Vec<(&'static str, String, String)> = vec![];
     let wrows: Vec<Vec<String>> = rows.iter().map(|r| words(r)).collect();
     match &hc.about {
-        About::NotHelp => {}
+        About::NotHelp | About::AsParsed(_) => {}
         About::Unknown => {
             if !(rows.len() == 1 && rows[0] == "error: unknown command") {
                 fails.push(("unknown-command-message", hc.kind.to_string(), "expected exactly the line `error: unknown command`".into()));
